@@ -1,6 +1,14 @@
 #!/usr/bin/env python3
 """Writes /verif/seeded/INDEX.md from seeded/*/meta.json."""
 import json, glob, os
+# changes that need an input or situation outside the property's scope (see DESIGN.md section 13)
+NOT_CLAIMED={
+ 'C02-w6f9m2':'needs pointer_field 255: a first section starting outside the packet that announces it (ISO 13818-1 2.4.4.2 does not allow it)',
+ 'C07-w7m2':'needs a reader that reports end of file and later delivers more data, with NextData called again after ErrNoMorePackets',
+ 'C19-w7m1':'same as C07-w7m2: a source that resumes after end of file',
+ 'C16-w7m2':'needs a PacketsParser that keeps the slice it was handed beyond the call; whether that slice may be reused is not promised either way',
+ 'C19-w7m2':'needs a PAT/PMT section_length >= 1024, which ISO 13818-1 forbids',
+}
 rows=[]
 for d in sorted(glob.glob('/verif/seeded/*/')):
     mp=os.path.join(d,'meta.json')
@@ -9,9 +17,12 @@ for d in sorted(glob.glob('/verif/seeded/*/')):
     readme=m.get('needs_to_manifest','')
     first=' '.join(readme.split())[:300]
     ok=all(m['validated'].get(k) for k in ('demo_passes_on_clean_tree','patch_applies','existing_suite_passes_with_change','demo_fails_with_change'))
-    rows.append((m['id'], m['breaks_property'], 'yes' if ok else 'NO', ', '.join(m['caught_by']) or '—', ', '.join(m['missed_by']) or '', first))
+    missed=', '.join(m['missed_by']) or ''
+    if m['id'] in NOT_CLAIMED and not m['caught_by']:
+        missed += ' (not claimed: '+NOT_CLAIMED[m['id']]+')'
+    rows.append((m['id'], m['breaks_property'], 'yes' if ok else 'NO', ', '.join(m['caught_by']) or '—', missed, first))
 with open('/verif/seeded/INDEX.md','w') as f:
-    f.write("# Seeded changes\n\nEach directory holds `patch.diff` (never committed to /repo), the sub-agent's `demo_test.go` and `README.md`, `eval.json` (raw evaluation) and `meta.json`.\n`validated` = the demo passes on the clean tree, the patch applies, the existing 160-test suite passes with it, the demo fails with it.\nChecks were run with `bin/check-at <scratch worktree with the patch> <Cxx> quick` and `VERIF_SEED` 1 and 2 (`C04@2` = check C04, seed 2).\n`-mK` = first wave, `-w2mK` = second wave (prompt asking for hard, multi-condition changes).\n\n| id | property | validated | caught by | missed by | what it is / needs |\n|---|---|---|---|---|---|\n")
+    f.write("# Seeded changes\n\nEach directory holds `patch.diff` (never committed to /repo), the sub-agent's `demo_test.go` and `README.md`, `eval.json` (raw evaluation) and `meta.json`.\n`validated` = the demo passes on the clean tree, the patch applies, the existing 160-test suite passes with it, the demo fails with it.\nChecks were run with `bin/check-at <scratch worktree with the patch> <Cxx> quick` and `VERIF_SEED` 1 and 2 (`C04@2` = check C04, seed 2).\n`-mK` = first wave, `-wNmK` = wave N (DESIGN.md section 13 describes the prompts), `-w6f<n>mK` = wave 6, regression of the n-th fix commit. A change listed under a neighbouring property's check (e.g. `C20@1` in a C06 row) is one whose effect is that property's subject.\n\n| id | property | validated | caught by | missed by | what it is / needs |\n|---|---|---|---|---|---|\n")
     for r in rows:
         f.write("| %s | %s | %s | %s | %s | %s |\n" % tuple(x.replace('|','/').replace('\n',' ') for x in r))
 print(len(rows),'entries')
